@@ -143,6 +143,18 @@ def ctxOf (g : DDNGraph) (i : Nat) (k : List Nat × List Nat) : List Nat × List
   let av := sel (g.ps i).agents k.2
   (av, sel ((g.ps i).features.getD (toIndex (sel (g.ps i).agents g.A) av) []) k.1)
 
+/-- what `DDNGraph::push` checks about the parent set of feature `i` (Boolean form of `AITB.Factored.ParentsOK`) -/
+def parentsOKB (g : DDNGraph) (i : Nat) : Bool :=
+  (g.ps i).agents.all (fun k => decide (k < g.A.length)) && (g.ps i).features.length == spacePartial (g.ps i).agents g.A &&
+  (g.ps i).features.all (fun f => f.all (fun k => decide (k < g.S.length)))
+
+/-- the arguments of a call are inside the documented preconditions (full state / joint action inside their spaces) -/
+def FOp.validB (g : DDNGraph) : FOp → Bool
+  | .record s a s1 _ => AITB.Factored.validB g.S s && AITB.Factored.validB g.A a && AITB.Factored.validB g.S s1
+  | .syncSA s a => AITB.Factored.validB g.S s && AITB.Factored.validB g.A a
+  | .syncIdx _ s a => AITB.Factored.validB g.S s && AITB.Factored.validB g.A a
+  | _ => true
+
 structure CoopWorld where
   /-- `timesteps_` -/
   ts : Nat
